@@ -631,34 +631,12 @@ func c05R5(c *Ctx) {
 				}
 				_ = a
 				p := callee.Params[i]
-				// element stores through the parameter
-				wrote := false
-				eachInstr(callee, func(in ssa.Instruction) {
-					st, ok := in.(*ssa.Store)
-					if !ok {
-						return
-					}
-					if ia, ok := st.Addr.(*ssa.IndexAddr); ok {
-						for _, l := range origins(ia.X, originOpts{throughSlice: true}) {
-							if l.V == ssa.Value(p) {
-								wrote = true
-							}
-						}
-					}
-				})
-				// ... and appends to a slice of it (`out := buf[:0]; out = append(out, b)`: filtering in place)
-				eachInstr(callee, func(in ssa.Instruction) {
-					call, ok := in.(*ssa.Call)
-					if !ok || calleeID(&call.Call) != "builtin append" || len(call.Call.Args) == 0 {
-						return
-					}
-					for _, l := range origins(call.Call.Args[0], originOpts{throughSlice: true}) {
-						if l.V == ssa.Value(p) {
-							wrote = true
-						}
-					}
-				})
-				c.check(!wrote, c.fnName(callee)+"/input-not-written", c.ipos(ci), "the scanner does not write into the chunk", "a scanner writes into the chunk it was only meant to look at")
+				// element stores, appends and copies through the parameter, here or in a function the chunk is handed on to
+				wrote, where := writesChunk(c, callee, p, 0, map[*ssa.Function]bool{})
+				if wrote {
+					where = " (" + where + ")"
+				}
+				c.check(!wrote, c.fnName(callee)+"/input-not-written", c.ipos(ci), "the scanner does not write into the chunk", "a scanner writes into the chunk it was only meant to look at"+where)
 				ret, why := retains(c, callee, p, 0)
 				c.check(!ret, c.fnName(callee)+"/input-not-retained", c.ipos(ci), "the scanner does not keep a reference to the pump's reusable buffer", "a scanner keeps a reference to the pump's reusable read buffer ("+why+"): the next read overwrites what it kept, or its appends overwrite live output")
 			}
@@ -942,4 +920,80 @@ func dragWholeInput(c *Ctx) {
 			c.undecided(nm+"/answers-only-after-whole-input", "no successful answer found in the detector")
 		}
 	}
+}
+
+// subsliceFuncs: library functions whose result is a sub-slice of their first argument.
+var subsliceFuncs = map[string]bool{"bytes.TrimPrefix": true, "bytes.TrimSuffix": true, "bytes.TrimSpace": true, "bytes.Trim": true,
+	"bytes.TrimLeft": true, "bytes.TrimRight": true, "bytes.TrimFunc": true, "bytes.TrimLeftFunc": true, "bytes.TrimRightFunc": true}
+
+// aliasesParam: v may share p's backing array (slices of it, trimmed forms, appends onto such a slice).
+func aliasesParam(v ssa.Value, p *ssa.Parameter, depth int) bool {
+	if depth > 8 {
+		return false
+	}
+	for _, l := range origins(v, originOpts{throughSlice: true}) {
+		if l.V == ssa.Value(p) {
+			return true
+		}
+		if call, ok := l.V.(*ssa.Call); ok && len(call.Call.Args) > 0 {
+			id := calleeID(&call.Call)
+			if id == "builtin append" && fullCapSlice(call.Call.Args[0]) {
+				continue // append onto x[:n:n] always allocates: the result shares nothing with x
+			}
+			if subsliceFuncs[id] || id == "builtin append" {
+				if aliasesParam(call.Call.Args[0], p, depth+1) {
+					return true
+				}
+			}
+		}
+	}
+	return false
+}
+
+// writesChunk: f writes into the backing array of its []byte parameter p — an element store, an append onto a slice of
+// it, a copy into it — or hands it to a function of the package that does.
+func writesChunk(c *Ctx, f *ssa.Function, p *ssa.Parameter, depth int, seen map[*ssa.Function]bool) (bool, string) {
+	if depth > 5 || seen[f] || f.Blocks == nil {
+		return false, ""
+	}
+	seen[f] = true
+	wrote, where := false, ""
+	eachInstr(f, func(in ssa.Instruction) {
+		if wrote {
+			return
+		}
+		switch x := in.(type) {
+		case *ssa.Store:
+			if ia, ok := x.Addr.(*ssa.IndexAddr); ok && aliasesParam(ia.X, p, 0) {
+				wrote, where = true, "element store in "+c.fnName(f)+" at "+c.ipos(in)
+			}
+		case *ssa.Call:
+			id := calleeID(&x.Call)
+			if id == "builtin append" && len(x.Call.Args) > 0 && fullCapSlice(x.Call.Args[0]) {
+				return
+			}
+			if (id == "builtin append" || id == "builtin copy") && len(x.Call.Args) > 0 && aliasesParam(x.Call.Args[0], p, 0) {
+				wrote, where = true, strings.TrimPrefix(id, "builtin ")+" onto a slice of it in "+c.fnName(f)+" at "+c.ipos(in)
+				return
+			}
+			g := x.Call.StaticCallee()
+			if g == nil || g.Blocks == nil || g.Pkg != f.Pkg {
+				return
+			}
+			for i, a := range x.Call.Args {
+				if i < len(g.Params) && strings.HasPrefix(g.Params[i].Type().String(), "[]byte") && aliasesParam(a, p, 0) {
+					if w, wh := writesChunk(c, g, g.Params[i], depth+1, seen); w {
+						wrote, where = true, wh
+					}
+				}
+			}
+		}
+	})
+	return wrote, where
+}
+
+// fullCapSlice: v is x[i:n:n] — no spare capacity, so appending to it copies.
+func fullCapSlice(v ssa.Value) bool {
+	sl, ok := strip(v).(*ssa.Slice)
+	return ok && sl.Max != nil && sl.High != nil && strip(sl.Max) == strip(sl.High)
 }
